@@ -119,6 +119,12 @@ def _strategy(draw):
         opts["density"] = round(mass * 1.660541 / target ** 3, 4)
     if mixed or draw(st.integers(0, 3)) == 0:
         resn = sorted({r["resname"] for mt in spec["moltypes"] for r in mt["residues"]})
+        # half of the time a name that the last entry of [ molecules ] does not hold (if there is one): an earlier
+        # molecule is rebuilt in part while a later one is taken whole from the structure
+        last = [mt for mt in spec["moltypes"] if mt["name"] == spec["molecules"][-1][0]][0]
+        elsewhere = [n for n in resn if n not in {r["resname"] for r in last["residues"]}]
+        if elsewhere and draw(st.booleans()):
+            resn = elsewhere
         opts["build_res"] = [draw(st.sampled_from(resn))]
     if mixed or draw(st.integers(0, 2)) == 0:
         cbox = opts.get("box") or [round(edge + 0.5, 2)] * 3
